@@ -150,7 +150,9 @@ def check_history(run, ops, shortcut):
     try:
         with env:
             try:
-                solver = SmtLibSolver(REFSOLVER + ["--log", log, "--card", str(CARD)], env, QF_UFBV, LOGICS=PYSMT_LOGICS)
+                # (in half of the histories the process writes its get-value replies over several lines)
+                wrap = ["--wrap"] if len(ops) % 2 else []
+                solver = SmtLibSolver(REFSOLVER + wrap + ["--log", log, "--card", str(CARD)], env, QF_UFBV, LOGICS=PYSMT_LOGICS)
             except Exception as e:
                 raise RuntimeError("cannot start the reference solver: %s" % e)
 
@@ -408,12 +410,52 @@ def check_broken_solver(run, rnd, mode=None, fbp=None):
                 pass
 
 
+def check_other_environment(run, rnd):
+    """A solver of an environment that is not the current one: the values it returns are terms of ITS environment."""
+    from pysmt.smtlib.solver import SmtLibSolver
+    env2 = Environment()
+    mgr = env2.formula_manager
+    w = rnd.choice([2, 3])
+    k1, k2 = rnd.randrange(1 << w), rnd.randrange(1 << w)
+    x, y, p = mgr.Symbol("x", env2.type_manager.BVType(w)), mgr.Symbol("y", env2.type_manager.BVType(w)), mgr.Symbol("p")
+    f = mgr.And(mgr.Equals(x, mgr.BV(k1, w)), mgr.Equals(mgr.BVAdd(x, y), mgr.BV(k2, w)), p)
+    want_y = (k2 - k1) % (1 << w)
+    case = {"ops": [("assert", pys.decode(f)), ("solve",)], "shortcut": None, "other_environment": True}
+    run.case(key=("other-env", w, k1, k2), nontrivial=True)
+    run.cls("solver-of-another-environment")
+    solver = None
+    try:
+        solver = SmtLibSolver(REFSOLVER + (["--wrap"] if k1 % 2 else []) + ["--card", str(CARD)], env2, QF_UFBV, LOGICS=PYSMT_LOGICS)
+        solver.add_assertion(f)
+        ok = with_timeout(20, lambda: solver.solve())
+        vy = with_timeout(20, lambda: solver.get_value(y))
+        vp = with_timeout(20, lambda: solver.get_value(p))
+        model = with_timeout(20, lambda: solver.get_model())
+        vals = [vy, vp] + [v for (_, v) in model]
+        if ok is not True or vy is not mgr.BV(want_y, w) or vp is not mgr.TRUE() or any(v not in mgr for v in vals):
+            run.fail({"subcheck": "smtlibsolver:value", "op": "other-environment"}, case,
+                     "solver of a non-current environment: solve() = %r, y = %s (expected %d, as a term of that environment: %s), "
+                     "p = %s" % (ok, vy, want_y, vy in mgr, vp))
+    except Exception as e:
+        run.fail({"subcheck": "smtlibsolver:raised", "op": "other-environment"}, case,
+                 "solver of a non-current environment raised %s: %s" % (type(e).__name__, str(e)[:200]))
+    finally:
+        try:
+            if solver is not None:
+                solver.exit()
+        except Exception:
+            pass
+
+
 def shard(shard, seed, n):
     run = Run(PID)
 
     def body(rnd):
         if rnd.random() < 0.06:
             check_broken_solver(run, rnd)
+            return
+        if rnd.random() < 0.05:
+            check_other_environment(run, rnd)
             return
         ops, shortcut = gen_history(rnd)
         check_history(run, ops, shortcut)
